@@ -285,8 +285,8 @@ theorem rpcBuild_len (s : RpcSt) (ci : ClientInfo) (ip : Ip) (port : Nat) (r : B
           have : "tcp".toUTF8.toList.length = 3 := by decide +kernel
           have : "tcp6".toUTF8.toList.length = 4 := by decide +kernel
           unfold netidOf; split <;> omega
-        have ho : "superuser".toUTF8.toList.length = 9 := by decide +kernel
-        simp only [List.length_append, replyHdr_length, rpcbEntry_length, List.length_cons, List.length_nil, ho]
+        have ho := Texts.rpcOwner_le
+        simp only [List.length_append, replyHdr_length, rpcbEntry_length, List.length_cons, List.length_nil]
         omega
     · have : rpcPortmap s ip port = .ok ([0, 0, 0, 3] ++ []) := by
         unfold rpcPortmap; simp [h3, h4]
